@@ -103,6 +103,14 @@ fn main() {
             // reference: everything at once
             let mut reference = Vec::new();
             if build(cfg, &key, &payload[..], &mut reference).is_err() { continue; }
+            // signatures carry the wall-clock second: when a build does not equal the reference, take a fresh reference
+            // (the second may have ticked in between) before calling it different
+            let same_as_ref = |acc: &Vec<u8>, reference: &mut Vec<u8>| -> bool {
+                if acc == reference { return true; }
+                let mut fresh = Vec::new();
+                if build(cfg, &key, &payload[..], &mut fresh).is_ok() && acc == &fresh { *reference = fresh; return true; }
+                false
+            };
             // 2a. source schedules x sink schedules: identical octets
             let mut scheds: Vec<(Vec<usize>, Vec<usize>)> = vec![(vec![1], vec![]), (vec![], vec![1]), (vec![1], vec![1]), (vec![2, 1, 7], vec![3, 1]), (vec![511, 1, 513], vec![64, 1, 200])];
             if n <= 5 { for c in all_compositions(n) { scheds.push((c, vec![])); } }
@@ -110,7 +118,7 @@ fn main() {
             for (src, sink) in &scheds {
                 let mut w = SchedWriter::new(sink.clone(), None);
                 let r = guarded(|| build(cfg, &key, SchedReader::new(payload.clone(), src.clone()), &mut w));
-                let same = matches!(r, Ok(Ok(()))) && w.acc == reference;
+                let same = matches!(r, Ok(Ok(()))) && same_as_ref(&w.acc, &mut reference);
                 cx.out.case("", &[], &["build-sched".into(), cname.clone(), n.to_string(), nums(src), nums(sink)], &if same { "same octets".to_string() } else { format!("DIFFERENT ({:?}, {} vs {} octets)", r.as_ref().map(|x| x.is_ok()), w.acc.len(), reference.len()) }, Some(same), &format!("build-schedule-{cname}"));
             }
             // 2b. reader: source schedule x consumer kind x request sizes: identical payload and verdict
@@ -136,13 +144,13 @@ fn main() {
                 let mut src = SchedReader::new(payload.clone(), vec![8]).with_fault(Some(k)).with_fault_kind(kind);
                 let r = guarded(|| build(cfg, &key, &mut src, &mut w));
                 let clean = matches!(r, Ok(Ok(())));
-                let ok = if clean { w.acc == reference } else { src.faulted };
+                let ok = if clean { same_as_ref(&w.acc, &mut reference) } else { src.faulted };
                 cx.out.case("", &[], &["build-source-fault".into(), cname.clone(), n.to_string(), k.to_string(), format!("{kind:?}")], &format!("faulted={} clean={} octets={}", src.faulted, clean, w.acc.len()), Some(ok), "fault-builder-source");
                 // builder sink fault
                 let mut w = SchedWriter::new(vec![97], Some(k));
                 let r = guarded(|| build(cfg, &key, &payload[..], &mut w));
                 let clean = matches!(r, Ok(Ok(())));
-                let ok = if w.faulted { !clean } else { clean && w.acc == reference };
+                let ok = if w.faulted { !clean } else { clean && same_as_ref(&w.acc, &mut reference) };
                 cx.out.case("", &[], &["build-sink-fault".into(), cname.clone(), n.to_string(), k.to_string()], &format!("faulted={} clean={} octets={}", w.faulted, clean, w.acc.len()), Some(ok), "fault-builder-sink");
                 // reader source fault
                 let src = SchedBufReader::new(reference.clone(), vec![16]).with_fault(Some(k)).with_fault_kind(kind);
